@@ -26,7 +26,7 @@ import zlib
 
 from . import common, sessionlib, modlib
 
-KINDS = ('pass', 'failout', 'failexc', 'failcompile', 'faildirective', 'skipall', 'skippart', 'expexc', 'comment', 'disabled', 'disabledfail', 'needell')
+KINDS = ('pass', 'failout', 'failexc', 'failcompile', 'faildirective', 'skipall', 'skippart', 'expexc', 'comment', 'disabled', 'disabledfail', 'needell', 'latenote', 'latenotefail')
 BOUNDS = {'quick': dict(n=3, dirs=160, per=6), 'thorough': dict(n=4, dirs=700, per=6)}
 OPTS = {'none': '', 'skip': '+SKIP', 'noell': '-ELLIPSIS', 'req': '+REQUIRES(module:xdv_nope_q)'}
 CONFTEST = '''import json
